@@ -124,14 +124,12 @@ theorem cmpNum_errs (op : Num → Num → Bool) (args : List Value) : ErrsOK (cm
   | cons x rest =>
     simp only
     refine errsOK_bind (expectNumber_errs x) fun first => ?_
-    induction rest generalizing first with
+    generalize true = acc
+    induction rest generalizing first acc with
     | nil => simp only [cmpNum.go]; exact errsOK_ok _
     | cons v vs ih =>
       simp only [cmpNum.go]
-      refine errsOK_bind (expectNumber_errs v) fun cur => ?_
-      split
-      · exact ih cur
-      · exact errsOK_ok _
+      exact errsOK_bind (expectNumber_errs v) fun cur => ih cur _
 
 theorem cmpBool_errs (args : List Value) : ErrsOK (cmpBool args) := by
   unfold cmpBool
@@ -140,13 +138,12 @@ theorem cmpBool_errs (args : List Value) : ErrsOK (cmpBool args) := by
   | cons x rest =>
     cases x <;> simp only <;> try (intro e h; cases h; exact siteOK_type)
     rename_i first
-    induction rest generalizing first with
+    generalize true = acc
+    induction rest generalizing first acc with
     | nil => simp only [cmpBool.go]; exact errsOK_ok _
     | cons v vs ih =>
       cases v <;> simp only [cmpBool.go] <;> try (intro e h; cases h; exact siteOK_type)
-      split
-      · exact ih _
-      · exact errsOK_ok _
+      exact ih _ _
 
 /-- the panic sites a native procedure can still reach once the arity check has passed -/
 def pureSites : List String :=
@@ -537,17 +534,16 @@ theorem extremum_safe {step : Num → Num → Num} (hs : ∀ a b, a.PosDen → b
         have := ha x (by simp); rw [expectNumber_ok hx] at this; exact this
       exact extremum_fold_safe hs rest n hn (fun v hv => ha v (by simp [hv]))
 
-theorem cmpNum_go_np (op : Num → Num → Bool) : ∀ (vs : List Value) (last : Num), NoPanicE (cmpNum.go op last vs)
-  | [], last => by simp only [cmpNum.go]; intro s h; cases h
-  | v :: vs, last => by
+theorem cmpNum_go_np (op : Num → Num → Bool) : ∀ (vs : List Value) (last : Num) (acc : Bool),
+    NoPanicE (cmpNum.go op last acc vs)
+  | [], last, acc => by simp only [cmpNum.go]; intro s h; cases h
+  | v :: vs, last, acc => by
     simp only [cmpNum.go, bind, Except.bind]
     cases hv : expectNumber v with
     | error e => rw [expectNumber_err hv]; intro s h; cases h
     | ok n =>
       simp only
-      split
-      · exact cmpNum_go_np op vs n
-      · intro s h; cases h
+      exact cmpNum_go_np op vs n _
 
 theorem cmpNum_np (op : Num → Num → Bool) (args : List Value) : NoPanicE (cmpNum op args) := by
   unfold cmpNum
@@ -557,15 +553,13 @@ theorem cmpNum_np (op : Num → Num → Bool) (args : List Value) : NoPanicE (cm
     simp only [bind, Except.bind]
     cases hx : expectNumber x with
     | error e => rw [expectNumber_err hx]; intro s h; cases h
-    | ok n => exact cmpNum_go_np op rest n
+    | ok n => exact cmpNum_go_np op rest n true
 
-theorem cmpBool_go_np : ∀ (vs : List Value) (last : Bool), NoPanicE (cmpBool.go last vs)
-  | [], last => by simp only [cmpBool.go]; intro s h; cases h
-  | v :: vs, last => by
+theorem cmpBool_go_np : ∀ (vs : List Value) (last : Bool) (acc : Bool), NoPanicE (cmpBool.go last acc vs)
+  | [], last, acc => by simp only [cmpBool.go]; intro s h; cases h
+  | v :: vs, last, acc => by
     cases v <;> simp only [cmpBool.go] <;> try (intro s h; cases h; done)
-    split
-    · exact cmpBool_go_np vs _
-    · intro s h; cases h
+    exact cmpBool_go_np vs _ _
 
 theorem cmpBool_np (args : List Value) : NoPanicE (cmpBool args) := by
   unfold cmpBool
@@ -573,7 +567,7 @@ theorem cmpBool_np (args : List Value) : NoPanicE (cmpBool args) := by
   | nil => intro s h; cases h
   | cons x rest =>
     cases x <;> simp only <;> try (intro s h; cases h; done)
-    exact cmpBool_go_np rest _
+    exact cmpBool_go_np rest _ _
 
 
 theorem vec_alloc_some {σ : Store} {id : Nat} (h : σ.AllocIn (.vec id)) : σ.vecs[id]? ≠ none := by
